@@ -343,6 +343,14 @@ DropGOpen(t) ==
   /\ Begin(t, cmds, Ev(t, "dropg") @@ [g |-> hs[t][1].n], Rt(t, "dropg"))
   /\ UNCHANGED <<spans, lsets, futs, pushed, nid, natt>>
 
+\* a collector dropped without collect() while local spans entered in it are still open
+LcDropOpen(t) ==
+  /\ HasOpenAbove(t, "c")
+  /\ stack' = [stack EXCEPT ![t] = <<>>]
+  /\ hs' = [hs EXCEPT ![t] = Orphan(t)]
+  /\ Begin(t, <<>>, Ev(t, "lcdrop") @@ [c |-> hs[t][1].n], Rt(t, "lcdrop"))
+  /\ UNCHANGED <<spans, lsets, futs, pushed, nid, natt>>
+
 LcDrop(t) ==
   LET x == TopH(t) IN
   /\ hs[t] # <<>> /\ x.k = "c"
@@ -801,7 +809,7 @@ MenuOp(t) ==
   \/ M("dropg") /\ DropG(t)
   \/ M("lcstart") /\ LcStart(t)
   \/ M("lccollect") /\ LcCollect(t)
-  \/ M("collectopen") /\ (LcCollectOpen(t) \/ DropGOpen(t))
+  \/ M("collectopen") /\ (LcCollectOpen(t) \/ DropGOpen(t) \/ LcDropOpen(t))
   \/ M("lcdrop") /\ LcDrop(t)
   \/ M("lenter") /\ LEnter(t)
   \/ M("lexit") /\ LExit(t)
